@@ -53,7 +53,7 @@ URL = (
     r"(?:[a-z\u00a1-\uffff]{2,}\.?)"
     r")"
     # port number (optional)
-    r"(?::\d{2,5})?"
+    r"(?::\d{1,5})?"
     # resource path (optional)
     # r"(?:[/?#]\S*)?"
 )
